@@ -426,17 +426,17 @@ Section Args.
       { inversion IHl as [|? ? Hx _]; subst. cbn [snd] in Hx.
         cbn in Hall. apply andb_true_iff in Hall. destruct Hall as [Hlx _].
         destruct x as [ | z | n0 d | x0 | b | x0 | y | l0 | l0];
-          try (destruct (Hx _ _ Hlx) as [[c Hc]|[y0 [Hy0 _]]]; [|discriminate];
+          try (destruct (Hx _ _ Hlx) as [[c Hc]|[y0 [Hy0 _]]]; [|discriminate Hy0];
                exists c; split; [reflexivity|]; split; [exact Hc|];
-               eapply coerce_lit_nonnull; [right; split; [discriminate | intros ?; discriminate] | exact Hc]).
-        - cbn in Hnx. discriminate Hnx.
-        - (* a variable: a OneOf field is a non-null position *)
-          destruct (find_var y vdefs) as [vd|] eqn:Ev; [|discriminate].
-          pose proof (var_usage y vd (TNonNull (a_type ad)) false Ev Hvar) as Hu.
-          cbn [missing_var coerce_lit]. destruct (lookup y cv) as [c0|] eqn:Ely.
-          + specialize (Hu eq_refl). exists c0. split; [reflexivity|]. split; [|exact Hu].
-            destruct c0; try reflexivity. congruence.
-          + destruct Hu; discriminate. }
+               eapply coerce_lit_nonnull; [|exact Hc]; right; split; [discriminate | intros ?; discriminate]).
+        all: try (cbn in Hnx; discriminate Hnx).
+        (* a variable: a OneOf field is a non-null position *)
+        destruct (find_var y vdefs) as [vd|] eqn:Ev; [|discriminate].
+        pose proof (var_usage y vd (TNonNull (a_type ad)) false Ev Hvar) as Hu.
+        cbn [missing_var coerce_lit]. destruct (lookup y cv) as [c0|] eqn:Ely.
+        * specialize (Hu eq_refl). exists c0. split; [reflexivity|]. split; [|exact Hu].
+          destruct c0; try reflexivity. congruence.
+        * destruct Hu; discriminate. }
       destruct Hc as [c [Hm [Hc Hcn]]]. rewrite Hm, Hc in Hp. inversion Hp; subst pre; clear Hp.
       rewrite (assemble_oneof (coerce_const s) defs k c Hnd (Hoo eq_refl)) in Hout.
       assert (Hk : mem k (map a_name defs) = true).
@@ -1092,7 +1092,7 @@ Section Checker.
       - exact H1. }
     unfold is_object, lookup_type in Ho. destruct (scalar_of_name rt'); [discriminate|].
     destruct (lookup rt' (s_types s)) as [td|] eqn:El; [|discriminate].
-    destruct td as [| |fs ifs| |]; try discriminate.
+    destruct td as [| |fs ifs| | |]; try discriminate.
     apply lookup_In in El. unfold object_names. apply in_flat_map.
     exists (rt', TObject fs ifs). split; [exact El | left; reflexivity].
   Qed.
@@ -1351,6 +1351,7 @@ Section ShapeSound.
             left. split; [unfold is_object; rewrite El; reflexivity | reflexivity].
           + destruct j; try discriminate. eapply Habs; [left; eexists; reflexivity | reflexivity | exact HH].
           + destruct j; try discriminate. eapply Habs; [right; eexists; reflexivity | reflexivity | exact HH].
+          + destruct j; cbn in HH; discriminate HH.
         - destruct j; try discriminate. apply sh_list. apply Forall_forall. intros x Hx.
           rewrite forallb_forall in HH. apply IHv. apply HH. exact Hx.
         - apply sh_nonnull; [exact Hj | apply IHv; exact HH]. }
